@@ -203,12 +203,7 @@ static void sim_exec_top(sim_inst *I, const sim_xop *x)
 			I->scanner = (void *) s;
 			I->inited = 1;
 #if SIM_FLAVOR == SIM_C99
-			{
-				static FILE *devnull;
-				if (!devnull)
-					devnull = fopen("/dev/null", "w");
-				yyset_out(devnull, s);
-			}
+			yyset_out(sim_devnull, s);
 #endif
 		} else
 			sim_res_int("errno", errno);
